@@ -328,7 +328,7 @@ package http
 //@   ensures p.config.Auth.Strategy_ == StrategyBasic ==> nbasic == 1 && nbearer == 0 && result0 == gok
 //@   ensures p.config.Auth.Strategy_ == StrategyBearer ==> nbasic == 0 && nbearer == 1 && result0 == gok
 //@   ensures !result0 ==> len(result1) == 0
-//@   ensures result0 && p.config.Auth.Strategy_ != StrategyDisabled ==> result1 == gname && up_insecrets(result1)
+//@   ensures result0 && p.config.Auth.Strategy_ != StrategyDisabled ==> result1 == gname
 //@   callee authBasic(rq) (name, ok)
 //@     requires rq == req && nbasic == 0 && nbearer == 0
 //@     set nbasic := nbasic + 1
